@@ -9,7 +9,7 @@
 Not decided: value-level path arithmetic in add_data (dirname/basename strings), UTF-8 content.
 """
 import re
-from engine import op_place
+from engine import op_place, const_str
 from terms import TermBuilder, render
 from common import fmt_key, ok_assign_blocks, reach_from, switch_info
 from c01 import agg_fields
@@ -177,6 +177,142 @@ def run(f, fixture, rep, cfg, tier):
         rep.check("options.destination" in ft.get("base_name", "") and "file_name" in ft.get("base_name", ""), "R2", "add_data|base_name", "base_name <- file name of the destination",
                   "entry.base_name is %s" % ft.get("base_name", "")[:120], ad.span)
         rep.check("options.destination" in ft.get("dir", "") and "parent" in ft.get("dir", ""), "R2", "add_data|dir", "dir <- parent of the destination", "entry.dir is %s" % ft.get("dir", "")[:160], ad.span)
+        # ... written with exactly the shape rpm concatenates: DIRNAMES[i] + BASENAMES[i] is the path, so every directory name ends in
+        # '/'.  Each value that reaches entry.dir is a `format!` whose template ends with "/", or was tested with `ends_with('/')`.
+        tad0 = TermBuilder(ad)
+
+        def _template(body, op, depth=0):
+            """decoded pieces of the format_args template behind a formatted String operand, or None"""
+            if depth > 6 or op_place(op) is None:
+                return None
+            for lf in body.origins(op, passthrough={}):
+                if lf["kind"] == "call":
+                    c_ = lf["call"]
+                    if c_.decl.startswith("std::fmt::Arguments::<'a>::new") and c_.args:
+                        for l2 in body.origins(c_.args[0]):
+                            raw = (l2.get("k") or {}).get("alloc") if l2["kind"] == "const" else None
+                            if raw:
+                                bs, out, i_ = bytes.fromhex(raw), [], 0
+                                while i_ < len(bs) and bs[i_] != 0:
+                                    if bs[i_] >= 0x80:
+                                        out.append(None)
+                                        i_ += 1
+                                    else:
+                                        out.append(bs[i_ + 1:i_ + 1 + bs[i_]])
+                                        i_ += 1 + bs[i_]
+                                return out
+                    if re.search(r"(std::fmt::format|std::hint::must_use|alloc::fmt::format)", c_.decl) and c_.args:
+                        t_ = _template(body, c_.args[0], depth + 1)
+                        if t_ is not None:
+                            return t_
+            return None
+        dir_op = None
+        agg_bb = None
+        for bb_ in ad.reachable():
+            for st_ in ad.stmts(bb_):
+                if st_["k"] == "assign" and st_["rv"]["r"] == "agg" and st_["rv"].get("adt", "").endswith("types::PackageFileEntry"):
+                    dir_op = dict(zip(st_["rv"]["fields"], st_["rv"]["ops"])).get("dir")
+                    agg_bb = bb_
+        bad_dirs = []
+        n_dir = 0
+        if dir_op is not None and op_place(dir_op) is not None:
+            # the locals the directory string flows through on its way to the entry (moves, tuple fields, copies, borrows)
+            chain, work_ = set(), [op_place(dir_op)["l"]]
+            defs_of = {}
+            while work_:
+                l_ = work_.pop()
+                if l_ in chain or (1 <= l_ <= ad.argc):
+                    continue
+                chain.add(l_)
+                for d_ in ad.defs(l_):
+                    (dbb, _i, kind, payload, lhs_proj) = d_
+                    if lhs_proj:
+                        continue
+                    defs_of.setdefault(l_, []).append(d_)
+                    if kind == "call":
+                        c_ = ad.call_at(dbb)
+                        if re.search(r"(Clone::clone|ToOwned::to_owned|ToString::to_string|Into::into|From::from|Deref::deref|String::as_str|AsRef::as_ref|Try::branch)$", c_.decl) and c_.args and op_place(c_.args[0]) is not None:
+                            work_.append(op_place(c_.args[0])["l"])
+                        continue
+                    rv_ = payload["rv"]
+                    if rv_["r"] in ("use", "cast") and op_place(rv_["o"]) is not None:
+                        work_.append(op_place(rv_["o"])["l"])
+                    elif rv_["r"] == "ref":
+                        work_.append(rv_["p"]["l"])
+                    elif rv_["r"] == "agg" and (rv_.get("ak") == "tuple" or rv_.get("variant") in ("Ok", "Some")):
+                        for o_ in rv_["ops"]:
+                            if op_place(o_) is not None and re.match(r"^(&?std::string::String|&str|\(.*std::string::String.*\))$", ad.local_ty(op_place(o_)["l"])):
+                                work_.append(op_place(o_)["l"])
+            # events that establish the trailing '/'
+            good_blocks, good_edges, starts = set(), set(), set()
+            for l_ in chain:
+                for (dbb, _i, kind, payload, lhs_proj) in defs_of.get(l_, []):
+                    if kind == "call":
+                        c_ = ad.call_at(dbb)
+                        if re.search(r"(Clone::clone|ToOwned::to_owned|ToString::to_string|Into::into|From::from|Deref::deref|String::as_str|AsRef::as_ref|Try::branch)$", c_.decl):
+                            continue
+                        if c_.decl.endswith("FromResidual::from_residual"):
+                            continue        # the error value of a `?` exit: no directory name in it
+                        tpl = None
+                        cc_ = c_
+                        for _k in range(4):
+                            if cc_.decl.startswith("std::fmt::Arguments::<'a>::new"):
+                                break
+                            nx_ = [lf["call"] for lf in ad.origins(cc_.args[0], passthrough={}) if lf["kind"] == "call"] if cc_.args and op_place(cc_.args[0]) is not None else []
+                            if len(nx_) != 1:
+                                break
+                            cc_ = nx_[0]
+                        if cc_.decl.startswith("std::fmt::Arguments::<'a>::new") and cc_.dest is not None:
+                            tpl = _template(ad, {"c": cc_.dest})
+                        n_dir += 1
+                        if tpl and tpl[-1] is not None and tpl[-1].endswith(b"/"):
+                            good_blocks.add(ad.term(dbb).get("target", dbb) if ad.term(dbb).get("target") is not None else dbb)
+                        else:
+                            starts.add((ad.term(dbb).get("target") if ad.term(dbb).get("target") is not None else dbb, "%s at line %s" % (c_.decl.rsplit("::", 1)[-1], c_.line)))
+                    else:
+                        rv_ = payload["rv"]
+                        if rv_["r"] in ("use", "cast", "ref") or (rv_["r"] == "agg" and (rv_.get("ak") == "tuple" or rv_.get("variant") in ("Ok", "Some"))):
+                            continue        # the value it copies / wraps decides
+                        n_dir += 1
+                        starts.add((dbb, "value built at line %s" % payload.get("line")))
+            for sb_ in ad.reachable():
+                i_ = switch_info(ad, sb_)
+                if i_ and i_["kind"] == "bool" and i_["call"].decl.endswith("<impl str>::ends_with") and const_str(i_["call"].args[1]) in ("'/'", '"/"'):
+                    if i_["call"].args and op_place(i_["call"].args[0]) is not None:
+                        roots_ = set()
+                        w2 = [op_place(i_["call"].args[0])["l"]] if op_place(i_["call"].args[0]) is not None else []
+                        seen2 = set()
+                        while w2:
+                            x_ = w2.pop()
+                            if x_ in seen2:
+                                continue
+                            seen2.add(x_)
+                            roots_.add(x_)
+                            for d2 in ad.defs(x_):
+                                if d2[4]:
+                                    continue
+                                if d2[2] == "call":
+                                    c2 = ad.call_at(d2[0])
+                                    if re.search(r"(Deref::deref|String::as_str|AsRef::as_ref|Borrow::borrow)$", c2.decl) and c2.args and op_place(c2.args[0]) is not None:
+                                        w2.append(op_place(c2.args[0])["l"])
+                                elif d2[3]["rv"]["r"] in ("use", "cast") and op_place(d2[3]["rv"]["o"]) is not None:
+                                    w2.append(op_place(d2[3]["rv"]["o"])["l"])
+                                elif d2[3]["rv"]["r"] == "ref":
+                                    w2.append(d2[3]["rv"]["p"]["l"])
+                        if roots_ & chain:
+                            good_edges.add((sb_, i_["true"]))
+            for c_ in ad.calls():
+                if c_.decl.endswith("String::push") and len(c_.args) == 2 and const_str(c_.args[1]) == "'/'" and any(w_ is c_ for l_ in chain for (w_, _ai) in ad.mut_borrow_calls(l_)):
+                    if c_.target is not None:
+                        good_blocks.add(c_.target)
+            from pathsens import ps_reach as _rf      # an `Err(..)` built in a spliced-in helper does not reach the entry's construction
+            for (sbb, what_) in sorted(starts, key=lambda x: str(x)):
+                if sbb in good_blocks:
+                    continue
+                if agg_bb in _rf(ad, sbb, blocked_edges=good_edges, blocked_blocks=good_blocks):
+                    bad_dirs.append(what_)
+        rep.check(n_dir >= 1 and not bad_dirs, "R2", "add_data|dir|trailing-slash", "every directory name handed to the header ends with '/'",
+                  "entry.dir can be a directory name without the trailing '/' (%s): DIRNAMES[i] + BASENAMES[i] is then not the file's path" % "; ".join(bad_dirs[:3]), ad.span)
         tad = TermBuilder(ad)
         ins = [c for c in ad.calls() if c.decl.endswith("BTreeMap::<K, V, A>::entry")]
         rep.check(len(ins) == 1 and "options.destination" in render(tad.term(ins[0].args[1])), "R2", "add_data|cpio-path", "the archive name derives from the destination",
@@ -340,6 +476,9 @@ def run(f, fixture, rep, cfg, tier):
     # times given as chrono / SystemTime values (changelog entries, source date) are stored as the instant they denote
     rep.rule("R5", "time inputs are converted exactly (C20's conversion tables)")
     rep.include("c20", f, fixture, cfg, tier, "R5", "conversion of a time given to the builder", floor=8)
+    # "content digest": the digest rows and the algorithm tag that tells a reader how to interpret them are C08's provenance table
+    rep.rule("R6", "file digest rows and their algorithm tag (C08.R2)")
+    rep.include("c08", f, fixture, cfg, tier, "R6", "file digests recorded by the builder", only_rules={"R2"}, floor=10)
 
     # the FileOptions flag helpers add their flag to what was set before (`.is_ghost().is_config_noreplace()` keeps GHOST):
     # every write of `inner.flag` in a builder method goes through insert / |= (never a plain assignment)
